@@ -5,7 +5,7 @@ import qrdata_gen as G
 ID = 'C07'
 COQ_TARGETS = ['Props/Properties_C07.vo']
 PROPS_FILES = ['Props/Properties_C07.v']
-THEOREMS = ['C07_plain_exact']
+THEOREMS = ['C07_plain_exact', 'C07_qp_body']
 ENGINES = [dict(name='qrdata', c_sources=['qrdata_h.c'], extract='Extract/Extract_qrdata.v', driver='qrdata_driver.ml',
                 accepts=lambda c: c.startswith('07 '), libs=())]
 RULE = G.RULE
